@@ -66,6 +66,7 @@ def _inv_errors(c, errs, vm, data, i):
 class ListMethodDeserialize:
     kinds = {"data": "list", "values": "list"}
     raises = ["ValidationError"]
+    exports = ["C01: returns iff data is an array whose elements all conform and whose constraints hold"]
 
     def requires(self, c):
         return [isinst(c.self, "ListMethod")] + _wf(c)
@@ -97,6 +98,7 @@ class ListMethodDeserialize:
 class ListCheckOnlyDeserialize:
     kinds = {"data": "list"}
     raises = ["ValidationError"]
+    exports = ["C01: returns iff data is an array whose elements all conform and whose constraints hold", "C08: check-only variant returns the input itself"]
 
     def requires(self, c):
         return [isinst(c.self, "ListCheckOnlyMethod")] + _wf(c)
